@@ -89,6 +89,9 @@ func (p *Prefix) NewSession(tag string) *Sess {
 	return s
 }
 
+// Dir is the session scratch directory (the chain lives in Dir()+"/d").
+func (s *Sess) Dir() string { return s.dir }
+
 // Abandon marks the instance as poisoned (panic with locks held): no Close.
 func (s *Sess) Abandon() { s.dead = true }
 
